@@ -447,6 +447,9 @@ fn strategy() -> BoxedStrategy<Case> {
             4 => prop::collection::vec(small(), 0..=64),
             1 => prop::collection::vec(small(), 0..=3),
             1 => prop::collection::vec(-4i64..=4, 200..=1200),
+            // exact multiples of typical block sizes, and their neighbours
+            1 => (prop::sample::select(vec![127usize, 128, 129, 255, 256, 257, 511, 512, 1023, 1024, 1025, 2047, 2048, 2049, 3072, 4096, 8192]), -4i64..=4, any::<u64>())
+                .prop_map(|(n, base, s)| (0..n).map(|i| base + (crate::splitmix(s ^ i as u64) % 5) as i64 - 2).collect()),
             1 => proptest::sample::select(EDGES.to_vec()).prop_map(|e| vec![e]),
         ]
     };
@@ -470,7 +473,7 @@ fn strategy() -> BoxedStrategy<Case> {
 }
 
 pub fn run(ctx: &mut Ctx) {
-    ctx.rule = "exhaustive: all 343 triples over {MIN, MIN+1, -1, 0, 1, MAX-1, MAX}; generated: value triples, pairs of result vectors (length 0..64, occasionally 200..1200, sums fit i64; incl. rotations with equal totals) in both polarities, each built through one of 12 sources (slice / Vec / typed results, and iterators with valid but imprecise size hints: filter, flat_map, from_fn, chain, take_while, custom hints) wrapped into individuals with different genomes, result collections over f64 (exactly summable values: exact equality; general values: within the rounding bound (n+2) eps sum|x| of the sum, so that any summation order is accepted), i32 and u64, and IndividualGenerator / GenomeScorer runs with a recording scorer against the genome source run from an equal generator state. non-trivial = triples with >= 2 distinct values, vectors of length >= 2, genomes of length >= 2; distinct by JSON encoding".into();
+    ctx.rule = "exhaustive: all 343 triples over {MIN, MIN+1, -1, 0, 1, MAX-1, MAX}; generated: value triples, pairs of result vectors (length 0..64, occasionally 200..1200 or exactly 127..8192 at and around powers of two, sums fit i64; incl. rotations with equal totals) in both polarities, each built through one of 12 sources (slice / Vec / typed results, and iterators with valid but imprecise size hints: filter, flat_map, from_fn, chain, take_while, custom hints) wrapped into individuals with different genomes, result collections over f64 (exactly summable values: exact equality; general values: within the rounding bound (n+2) eps sum|x| of the sum, so that any summation order is accepted), i32 and u64, and IndividualGenerator / GenomeScorer runs with a recording scorer against the genome source run from an equal generator state. non-trivial = triples with >= 2 distinct values, vectors of length >= 2, genomes of length >= 2; distinct by JSON encoding".into();
     ctx.assumptions.push("TestResults == (derived, structural) is not required to agree with its cmp; result vectors are generated so that their sum fits in i64".into());
     ctx.exhaustive = Some(true);
     ctx.extra.insert("exhaustive_scope".into(), serde_json::json!("all ordered triples over the 7 extreme values (343); the generated sub-check is not exhaustive"));
